@@ -6,6 +6,7 @@ import (
 	"sort"
 	"strings"
 	"syscall"
+	"time"
 
 	"github.com/ErdemOzgen/blackdagger/internal/verifsim/simrt"
 )
@@ -111,6 +112,10 @@ func ioFaultPlan(tp *simrt.Tape, fc *ioFaultCfg, agentPid func() int) (func(op *
 			errno = pick2(tp, syscall.ENOSPC, syscall.EIO)
 		}
 		op.Proc.W.CountFault("io_error:" + class)
+		if class == "pipe-open" {
+			// the attempt ends here without a process: the instant is needed to place the retry wait that follows
+			op.Proc.W.Emit("attempt_failed_in_setup", name, class, 0, nil)
+		}
 		n := 0
 		if (class == "script-write" || class == "log-write") && op.Len > 1 && tp.Chance(simrt.SFault, 1, 2) {
 			n = op.Len / 2 // a short write: half of the data reaches the file before the error
@@ -212,20 +217,77 @@ func (c *stepCheck) checkIOFault(hung bool) {
 		}
 	}
 
-	// ---- concurrency (C15): never more than maxActiveRuns step commands at once (processes only here)
+	// ---- concurrency (C15): never more than maxActiveRuns steps executing at once. A step is executing while
+	// a process of it is open and, after an attempt that is retried, for the retry interval; an attempt that
+	// failed before any process existed (no pipe for the captured output) is followed by that wait as well.
 	if d.MaxActiveRuns > 0 {
+		type pt struct {
+			t time.Duration
+			s uint64
+		}
+		lessPt := func(a, b pt) bool { return a.t < b.t || (a.t == b.t && a.s < b.s) }
+		type iv struct {
+			s, e pt
+			name string
+			wait bool
+		}
+		var ivs []iv
+		evidence := map[string][]pt{} // every attempt of a step: process starts and set-up failures
+		for _, r := range c.truth.Runs {
+			if !isHandlerStep(r.Name) {
+				evidence[r.Name] = append(evidence[r.Name], pt{r.StartAt, r.StartSeq})
+			}
+		}
+		var setupFails []simrt.Event
+		for _, e := range c.res.Events {
+			if e.Kind == "attempt_failed_in_setup" && !isHandlerStep(e.A) && d.Step(e.A) != nil {
+				setupFails = append(setupFails, e)
+				evidence[e.A] = append(evidence[e.A], pt{e.At, e.Seq})
+			}
+		}
+		laterAttempt := func(name string, after pt) bool {
+			for _, p := range evidence[name] {
+				if lessPt(after, p) {
+					return true
+				}
+			}
+			return false
+		}
+		for _, r := range c.truth.Runs {
+			if isHandlerStep(r.Name) {
+				continue
+			}
+			spec := d.Step(r.Name)
+			e := pt{r.EndAt, r.EndSeq}
+			if r.EndSeq == 0 {
+				e = pt{1 << 62, ^uint64(0)}
+			} else if spec != nil && spec.RetryInterval > 0 && laterAttempt(r.Name, e) {
+				e = pt{r.EndAt + time.Duration(spec.RetryInterval)*time.Second, 0}
+			}
+			ivs = append(ivs, iv{pt{r.StartAt, r.StartSeq}, e, r.Name, false})
+		}
+		for _, f := range setupFails {
+			spec := d.Step(f.A)
+			at := pt{f.At, f.Seq}
+			if spec.RetryInterval > 0 && laterAttempt(f.A, at) {
+				ivs = append(ivs, iv{at, pt{f.At + time.Duration(spec.RetryInterval)*time.Second, 0}, f.A, true})
+				bump(c.out, "retry_wait_after_setup_failure")
+			}
+		}
 		maxc := 0
 		var worst []string
-		for _, a := range c.truth.Runs {
-			if isHandlerStep(a.Name) {
-				continue
+		for _, a := range ivs {
+			if a.wait {
+				continue // the instants examined are the starts of processes
 			}
 			n := 0
 			var names []string
-			for _, b := range c.truth.Runs {
-				if !isHandlerStep(b.Name) && b.StartSeq <= a.StartSeq && (b.EndSeq == 0 || b.EndSeq > a.StartSeq) {
+			seen := map[string]bool{}
+			for _, b := range ivs {
+				if !lessPt(a.s, b.s) && lessPt(a.s, b.e) && !seen[b.name] { // b.s <= a.s < b.e
+					seen[b.name] = true
 					n++
-					names = append(names, b.Name)
+					names = append(names, b.name)
 				}
 			}
 			if n > maxc {
@@ -234,7 +296,7 @@ func (c *stepCheck) checkIOFault(hung bool) {
 		}
 		if maxc > d.MaxActiveRuns {
 			sort.Strings(worst)
-			c.viol("C15", "limit-exceeded", fmt.Sprintf("iofault/over-by-%d", maxc-d.MaxActiveRuns), "maxActiveRuns=%d but %d step commands were executing at once: %v", d.MaxActiveRuns, maxc, worst)
+			c.viol("C15", "limit-exceeded", fmt.Sprintf("iofault/over-by-%d", maxc-d.MaxActiveRuns), "maxActiveRuns=%d but %d steps were executing (a process open, or waiting out a retry interval) at once: %v", d.MaxActiveRuns, maxc, worst)
 		}
 	}
 
